@@ -97,6 +97,12 @@ def corpus():
         chain.append(("iface", "IC%d" % i, prev, [M("m%d" % i, [("in", "uint32", None, "x")]), ("error", "E%d" % i), ("const", "uint32", "K%d" % i, str(i))]))
         prev = "IC%d" % i
     out.append(("long_chain", fs1(chain)))
+    # a constant and a type whose names differ only in letter case, in one file and across files: names are
+    # compared exactly, these are four different declarations
+    out.append(("case_variant_names", {"files": [
+        {"path": "main.idl", "includes": ["limits.idl"], "decls": [("struct", "Limits", [("uint32", 1, "lo"), ("uint32", 1, "hi")]), ("const", "uint32", "RANGE", "9"),
+                                                                   ("iface", "ISensor", None, [M("read", [("in", "Limits", None, "l"), ("out", "Range", None, "r")])]), ("const", "uint32", "ISENSOR", "1")]},
+        {"path": "limits.idl", "includes": [], "decls": [("const", "uint32", "LIMITS", "4"), ("struct", "Range", [("uint64", 1, "a")])]}], "main": "main.idl", "idirs": []}))
     # a shared header reached more than once, through include strings with directory parts (.., ., a
     # sub-directory): one file, loaded once, whatever the spelling
     types = [("const", "uint32", "LIMIT", "7"), ("struct", "Rec", [("uint64", 1, "id"), ("uint32", 2, "v")]), ("iface", "IRoot", None, [M("ping", [("in", "Rec", None, "r")]), ("error", "E_ROOT")])]
